@@ -233,6 +233,24 @@ def slotAdd (m : Mem) (b : Nat) (o : Int) (d : Int) : R Val := do
   let o' := o + d
   if 0 ≤ o' && o' ≤ blk.slots.length then .ok (.ptr b o') else .error .ptrArith
 
+/-- `n` words starting at word `o` of a block, as they are (uninitialised ones included: copying a struct copies its
+    indeterminate members too) -/
+def Mem.loadWords (m : Mem) (b : Nat) (o : Int) (n : Nat) : R (List Val) := do
+  let blk ← m.block b
+  if o < 0 then .error (.oob "read below object") else
+  if o.toNat + n ≤ blk.slots.length then .ok ((blk.slots.drop o.toNat).take n) else .error (.oob "read beyond object")
+
+def Mem.storeWords (m : Mem) (b : Nat) (o : Int) (vs : List Val) : R Mem := do
+  let blk ← m.block b
+  if !blk.writable then .error .readonly else
+  if o < 0 then .error (.oob "write below object") else
+  if o.toNat + vs.length ≤ blk.slots.length then
+    .ok (m.set b { blk with slots := blk.slots.take o.toNat ++ vs ++ blk.slots.drop (o.toNat + vs.length) })
+  else .error (.oob "write beyond object")
+
+/-- a new object of `n` uninitialised words -/
+def Mem.allocWords (m : Mem) (n : Nat) : Mem × Nat := (m ++ [{ cells := [], slots := List.replicate n .undef }], m.length)
+
 /-- `strcmp` on byte strings: the difference of the first bytes that differ (as `unsigned char`), 0 for equal strings -/
 def cmpBytes : List UInt8 → List UInt8 → Int
   | [], [] => 0
@@ -301,6 +319,27 @@ def builtin (f : String) (args : List Val) (m : Mem) : R (Val × Mem) :=
     let s ← m.cstr b o
     let t ← m.cstr b2 o2
     .ok (.int (cmpBytes s t), m)
+  -- objects made of words: a local struct, assignment of a struct, (re)allocation of an array of structs / pointers
+  -- (the translator gives the sizes in words: `sizeof(struct file_entry)` is its number of members)
+  | "alloca_words", [.int n] =>
+    let (m, b) := m.allocWords n.toNat
+    .ok (.ptr b 0, m)
+  | "malloc_words", [.int n] =>
+    let (m, b) := m.allocWords n.toNat
+    .ok (.ptr b 0, m)
+  | "copy_words", [.ptr d od, .ptr s os, .int n] => do
+    let vs ← m.loadWords s os n.toNat
+    let m ← m.storeWords d od vs
+    .ok (.ptr d od, m)
+  | "realloc_words", [.null, .int n] =>
+    let (m, b) := m.allocWords n.toNat
+    .ok (.ptr b 0, m)
+  | "realloc_words", [.ptr b o, .int n] => do
+    let blk ← m.block b
+    if o != 0 then .error .badFree else
+    let keep := blk.slots.take n.toNat
+    let m := m.set b { blk with live := false }
+    .ok (.ptr m.length 0, m ++ [{ cells := [], slots := keep ++ List.replicate (n.toNat - keep.length) .undef }])
   | "free", [.null] => .ok (.int 0, m)
   | "free", [.ptr b o] => do
     let blk ← m.block b
